@@ -1,5 +1,6 @@
 """C08 — Prometheus output is well-formed exposition text for any input strings."""
 from facts import Sym, path_is, strip_generics, strip_sym, sym_arg, sym_calls, sym_is_call, sym_str, sym_through, sym_walk
+from facts import sym_arg
 from props.common import arg_syms, bool_switches, callee_method_name, calls_to, crate_stats, gates, in_cycle, need, nonforeign_calls, one_method
 from props.c07 import flat_phi, metric_lines
 
@@ -50,7 +51,7 @@ def run(ctx):
     chk.rule("C08.d", "ORD line order: every sample line is dominated by the TYPE line of its family in the same loop iteration; one TYPE line per family; HELP only before TYPE; a blank line closes each family", floor=3)
     chk.rule("C08.e", "TBL suffix/label table: histogram arm bucket+le (bounds then +Inf), sum, count; summary arm no suffix + quantile, sum, count; counters/gauges no suffix, no extra label", floor=4)
     chk.rule("C08.f", "SIB TYPE matches variant: get_distribution_type says \"histogram\" under exactly the disjunction under which get_distribution builds a histogram (global buckets or a matching override)", floor=1)
-    chk.rule("C08.g", "SHAPE label list syntax in write_metric_line: literal set {'{', ',', '}', '=\"', '\"', ' ', newline, '_'}; a comma only when a label was already written; HELP/TYPE lines end with newline and HELP text goes through sanitize_description", floor=3)
+    chk.rule("C08.g", "SHAPE label list syntax in write_metric_line: literal set {'{', ',', '}', '=\"', '\"', ' ', newline, '_'}; a comma only when a label was already written; HELP/TYPE lines end with newline and HELP text goes through sanitize_description; key_to_parts sanitises every label pair where it is emitted", floor=4)
     chk.trust("char::is_ascii_alphabetic/alphanumeric", "String::{push,push_str}", "f64/u64/&str Display")
     chk.residue.append("none for well-formedness under the stated name-distinctness precondition; value text of f64 (NaN, +Inf spelling) is std's Display")
 
@@ -300,6 +301,28 @@ def run(ctx):
                 seq.append(v if v is not None else ("name" if is_param(a, 1) else ("desc" if sym_is_call(sym_through(a, "Deref::deref", "String::as_str"), "sanitize_description") else ("type" if is_param(a, 2) else "?"))))
             want = ["# HELP ", "name", " ", "desc", "\n"] if tail_req else ["# TYPE ", "name", " ", "type", "\n"]
             chk.ob("C08.g", f.path, seq == want, f"writes {want}" if seq == want else f"writes {seq}, expected {want} (HELP text must go through sanitize_description; the line must end with a newline)", f.loc())
+
+    # label pairs are escaped where they are emitted
+    ktp = p.fn(f"{FMT}::key_to_parts")
+    if need(chk, "C08.g", "formatting::key_to_parts", ktp):
+        emit = None
+        for c in nonforeign_calls(ktp):
+            if c.fn is ktp and c.is_("Iterator::map"):
+                cl = strip_sym(Sym(ktp).operand(c.args[1]))
+                if cl[0] == "agg" and cl[1] == "closure":
+                    emit = p.fn(cl[5])
+        ok = False
+        detail = "no per-label formatting closure found"
+        if emit is not None:
+            sk = [c for c in emit.body.calls() if c.is_("formatting::sanitize_label_key")]
+            sv = [c for c in emit.body.calls() if c.is_("formatting::sanitize_label_value")]
+            sy = Sym(emit)
+            def from_param(c, fld):
+                a = strip_sym(sym_through(sy.operand(c.args[0]), "Deref::deref", "String::as_str", "AsRef::as_ref"))
+                return a[0] == "field" and a[2] == fld and sym_arg(a[1]) is not None and sym_arg(a[1])[0] == 1
+            ok = len(sk) == 1 and len(sv) == 1 and from_param(sk[0], "0") and from_param(sv[0], "1")
+            detail = f"label key sanitised at emission: {len(sk) == 1}, label value escaped at emission: {len(sv) == 1}"
+        chk.ob("C08.g", f"{ktp.path} [every emitted label pair is sanitised]", ok, "each (k, v) of the merged map is written as sanitize_label_key(k)=\"sanitize_label_value(v)\"" if ok else f"label pairs are not sanitised where they are written ({detail}): a value that enters the merged map by another route (e.g. a global label) is emitted verbatim and can end the value early or forge a line", ktp.loc())
 
     # ---------------- C08.f
     DB = "metrics_exporter_prometheus::distribution::DistributionBuilder"
